@@ -43,6 +43,9 @@ def run(check: Check, repo: Repo, tier: str) -> None:
     T5.per_event_pure(check, repo)
     check.floors = {k: v for k, v in check.floors.items() if k != "TWIN-HANDLERS"}
     check.floor("TWIN-HANDLERS", 1, "twins in execute.py")
+    from rules import total_rules as T1
+    # an exception raised by located_error itself escapes the per-event execution
+    T1.untrusted_attr(check, repo)
     from rules import type_witness as TW
     TW.type_witness(check, repo, repo.package_modules("execution") + repo.package_modules("pyutils"))
     check.floor("TYPE-WITNESS", 30, "modules type-checked")
